@@ -2,11 +2,14 @@
 
 Victim programs: async scopes (optionally nested, with sync scopes / updates in between) carrying
 fault-free disposables (enter/exit immediate or suspended on a gate) and fault-free spawned children
-(finish at once | after a gate | blocked until cancelled-or-everything-else-is-done). User code in the
+(finish at once | after a gate | blocked until cancelled-or-everything-else-is-done); a disposable may itself ctx.spawn a
+blocked helper task from its __aenter__ (the scope's task group is already current there). User code in the
 victim never catches anything. Run 0 counts the victim task's suspension points N under a schedule; runs
 k = 0..N-1 replay the same schedule and request `victim.cancel()` exactly when the victim suspends at
 point k (coroutine interposer, hv/inject.py) - inside __aenter__ (task group, disposables), in the body,
-inside __aexit__ (disposables' cleanup, waiting for children). Only *delivered* injections are judged.
+inside __aexit__ (disposables' cleanup, waiting for children) - either at the very moment it suspends there or 1-3 loop
+idles later while it is still suspended at that point (so disposables / children have progressed meanwhile).
+Only *delivered* injections are judged.
 
 Monitors
   victim-cancelled     the victim task ends cancelled (not: returns, not: another exception)
@@ -73,12 +76,12 @@ def make_block(name: str, disp: list[list[str]], children: list[str], inner: lis
     body.append({"op": "gate", "label": f"{name}.body2"})
     b: dict[str, Any] = {"op": "block", "kind": kind, "name": name, "supply": [["D1", next(uid)]], "body": body}
     if disp and kind == "ascope":
-        b["disposables"] = [{"yield": [["R1", next(uid)]] if i == 0 else [], "enter": en, "exit": ex} for i, (en, ex) in enumerate(disp)]
+        b["disposables"] = [{"yield": [["R1", next(uid)]] if i == 0 else [], "enter": d[0], "exit": d[1], "spawn": len(d) > 2} for i, d in enumerate(disp)]
     return b
 
 
 def small_programs():  # noqa: ANN201
-    disp_opts: list[list[list[str]]] = [[], [["ok", "ok"]], [["gate", "ok"]], [["ok", "gate"]], [["gate", "gate"]], [["gate", "gate"], ["ok", "gate"]]]
+    disp_opts: list[list[list[str]]] = [[], [["ok", "ok"]], [["gate", "ok"]], [["ok", "gate"]], [["gate", "gate"]], [["gate", "gate"], ["ok", "gate"]], [["gate", "ok", "spawn"]], [["gate", "gate", "spawn"], ["gate", "ok"]]]
     child_opts: list[list[str]] = [[], ["now"], ["gate"], ["blocked"], ["blocked", "gate"]]
     for disp, children, nesting in itertools.product(disp_opts, child_opts, ("none", "sscope", "updated", "ascope")):
         uid = itertools.count(1)
@@ -98,17 +101,17 @@ def random_program(rng: random.Random) -> list[dict[str, Any]]:
         name = f"b{next(n)}"
         kind = rng.choice(["ascope", "ascope", "sscope", "updated"]) if depth > 0 else "ascope"
         inner = [blk(depth + 1) for _ in range(rng.choice([0, 1, 1, 2]))] if depth < 2 else []
-        disp = [[rng.choice(["ok", "gate"]), rng.choice(["ok", "gate"])] for _ in range(rng.choice([0, 0, 1, 2]))]
+        disp = [[rng.choice(["ok", "gate"]), rng.choice(["ok", "gate"]), *(["spawn"] if rng.random() < 0.3 else [])] for _ in range(rng.choice([0, 0, 1, 2]))]
         children = [rng.choice(["now", "gate", "blocked"]) for _ in range(rng.choice([0, 1, 2]))] if kind == "ascope" else []
         return make_block(name, disp, children, inner, uid, kind)
 
     return [blk(0)]
 
 
-def run_once(prog: list[dict[str, Any]], prefix: list[int], policy: Any, target: int | None) -> dict[str, Any]:
+def run_once(prog: list[dict[str, Any]], prefix: list[int], policy: Any, target: int | None, after_idles: int = 0) -> dict[str, Any]:
     root = logging.getLogger()
     out: dict[str, Any] = {}
-    inj = Injector(target)
+    inj = Injector(target, after_idles)
 
     async def main(loop: Any) -> None:
         W: World = loop.W
@@ -142,17 +145,19 @@ def run_once(prog: list[dict[str, Any]], prefix: list[int], policy: Any, target:
         sched.low_prefix = "lp-"
         loop.W = World(loop, sched)
         loop.W.tg_enabled = False
-        return sched.idle
+        return lambda timeout: inj.on_idle() or sched.idle(timeout)
 
     status, value, loop = run_virtual(main, idle_hook_factory=hook, max_iterations=20000)
     out.update(status=status, value=value, W=loop.W, inj=inj, chooser=chooser, sched=loop.W.sched)
     return out
 
 
-def judge(R: Recorder, prog: list[dict[str, Any]], out: dict[str, Any], k: int, base_choices: list[int]) -> None:
+def judge(R: Recorder, prog: list[dict[str, Any]], out: dict[str, Any], k: int, base_choices: list[int], after_idles: int = 0) -> None:
     W: World = out["W"]
     inj: Injector = out["inj"]
-    rec = {"program": prog, "choices": base_choices, "k": k}
+    rec = {"program": prog, "choices": base_choices, "k": k, "after_idles": after_idles}
+    if after_idles:
+        k = (k, after_idles)  # type: ignore[assignment]
     phase = inj.where or "?"
     R.distinct("injection_points", (prog, base_choices, k))
     if not inj.fired:
@@ -185,7 +190,7 @@ def judge(R: Recorder, prog: list[dict[str, Any]], out: dict[str, Any], k: int, 
         if not t.done():
             bad = f"child {name} still pending at quiescence"
             break
-        is_blocked = any(s.get("kind") == "blocked" and s.get("name") == name for s in _spawns(prog))
+        is_blocked = name in W.spawned_by_disposable or any(s.get("kind") == "blocked" and s.get("name") == name for s in _spawns(prog))
         if is_blocked and name in spawned_before and f"lp-{name}" not in released:
             blocked_now += 1
             if not t.cancelled():
@@ -224,6 +229,14 @@ def inject_all(R: Recorder, prog: list[dict[str, Any]], rng: random.Random, nsch
         for k in range(n):
             out = run_once(prog, choices, "first", k)
             judge(R, prog, out, k, choices)
+            # the same suspension point, but the request arrives 1..3 loop idles later (other tasks - disposables entering or
+            # exiting, children - have made progress meanwhile while the victim is still suspended there)
+            for j in (1, 2, 3):
+                out = run_once(prog, choices, "first", k, after_idles=j)
+                if not out["inj"].fired:
+                    break
+                R.count("delayed_injections")
+                judge(R, prog, out, k, choices, after_idles=j)
 
 
 # ---- check_cancellation -----------------------------------------------------------------------------------
@@ -355,8 +368,8 @@ def replay(R: Recorder, rec: dict[str, Any]) -> None:
         out = run_once(rec["program"], rec["choices"], "first", None)
         print(out["status"], out.get("victim"), out["W"].events)
         return
-    out = run_once(rec["program"], rec["choices"], "first", rec["k"])
-    judge(R, rec["program"], out, rec["k"], rec["choices"])
+    out = run_once(rec["program"], rec["choices"], "first", rec["k"], after_idles=rec.get("after_idles", 0))
+    judge(R, rec["program"], out, rec["k"], rec["choices"], after_idles=rec.get("after_idles", 0))
     print("victim:", out.get("victim"), "phase:", out["inj"].where, "delivered:", out["inj"].delivered)
     print("events:", out["W"].events)
     print("children:", {n: ("cancelled" if t.cancelled() else "done") if t.done() else "pending" for n, t in out["W"].tasks.items()})
